@@ -421,6 +421,159 @@ fn sweep_theta(ctx: &mut Ctx, rng: &mut Rng, big: bool) {
     }
 }
 
+/// The public codec helpers: every typed write is read back bit-exactly in the same byte order and byte-swapped in
+/// the other; reads past the end are errors, not panics; `advance` accepts any distance.
+fn extremes_codec(ctx: &mut Ctx, rng: &mut Rng) {
+    use datasketches::codec::{SketchBytes, SketchSlice};
+    for round in 0..200 {
+        let n = rng.usize(0, 40);
+        let mut out = SketchBytes::with_capacity(rng.usize(0, 64));
+        let mut expect: Vec<(u8, u64)> = vec![];
+        for _ in 0..n {
+            let kind = rng.below(22) as u8;
+            let v = match rng.below(4) {
+                0 => 0,
+                1 => u64::MAX,
+                2 => 1u64 << rng.below(64),
+                _ => rng.next_u64(),
+            };
+            match kind {
+                0 => out.write_u8(v as u8),
+                1 => out.write_i8(v as i8),
+                2 => out.write_u16_le(v as u16),
+                3 => out.write_u16_be(v as u16),
+                4 => out.write_i16_le(v as i16),
+                5 => out.write_i16_be(v as i16),
+                6 => out.write_u32_le(v as u32),
+                7 => out.write_u32_be(v as u32),
+                8 => out.write_i32_le(v as i32),
+                9 => out.write_i32_be(v as i32),
+                10 => out.write_u64_le(v),
+                11 => out.write_u64_be(v),
+                12 => out.write_i64_le(v as i64),
+                13 => out.write_i64_be(v as i64),
+                14 => out.write_f32_le(f32::from_bits(v as u32)),
+                15 => out.write_f32_be(f32::from_bits(v as u32)),
+                16 => out.write_f64_le(f64::from_bits(v)),
+                17 => out.write_f64_be(f64::from_bits(v)),
+                _ => out.write(&v.to_le_bytes()[..(kind as usize - 17)]),
+            }
+            expect.push((kind, v));
+        }
+        let bytes = out.into_bytes();
+        // independent expectation of the byte string
+        let mut want: Vec<u8> = vec![];
+        for &(kind, v) in &expect {
+            let (w, be) = match kind {
+                0 | 1 => (1, false),
+                2 | 4 => (2, false),
+                3 | 5 => (2, true),
+                6 | 8 | 14 => (4, false),
+                7 | 9 | 15 => (4, true),
+                10 | 12 | 16 => (8, false),
+                11 | 13 | 17 => (8, true),
+                k => (k as usize - 17, false),
+            };
+            let le = &v.to_le_bytes()[..w];
+            if be {
+                want.extend(le.iter().rev());
+            } else {
+                want.extend(le);
+            }
+        }
+        ctx.evals(1);
+        if bytes != want {
+            ctx.violation("invariant | codec writes other bytes than the typed values in the stated byte order", format!("round {}: {} vs {}", round, rt::json::hex(&bytes), rt::json::hex(&want)));
+            return;
+        }
+        let mut rd = SketchSlice::new(&bytes);
+        let mut ok = true;
+        for &(kind, v) in &expect {
+            let got: Option<u64> = match kind {
+                0 => rd.read_u8().ok().map(|x| x as u64),
+                1 => rd.read_i8().ok().map(|x| x as u8 as u64),
+                2 => rd.read_u16_le().ok().map(|x| x as u64),
+                3 => rd.read_u16_be().ok().map(|x| x as u64),
+                4 => rd.read_i16_le().ok().map(|x| x as u16 as u64),
+                5 => rd.read_i16_be().ok().map(|x| x as u16 as u64),
+                6 => rd.read_u32_le().ok().map(|x| x as u64),
+                7 => rd.read_u32_be().ok().map(|x| x as u64),
+                8 => rd.read_i32_le().ok().map(|x| x as u32 as u64),
+                9 => rd.read_i32_be().ok().map(|x| x as u32 as u64),
+                10 => rd.read_u64_le().ok(),
+                11 => rd.read_u64_be().ok(),
+                12 => rd.read_i64_le().ok().map(|x| x as u64),
+                13 => rd.read_i64_be().ok().map(|x| x as u64),
+                14 => rd.read_f32_le().ok().map(|x| x.to_bits() as u64),
+                15 => rd.read_f32_be().ok().map(|x| x.to_bits() as u64),
+                16 => rd.read_f64_le().ok().map(|x| x.to_bits()),
+                17 => rd.read_f64_be().ok().map(|x| x.to_bits()),
+                k => {
+                    let mut buf = vec![0u8; k as usize - 17];
+                    rd.read_exact(&mut buf).ok().map(|_| {
+                        let mut a = [0u8; 8];
+                        a[..buf.len()].copy_from_slice(&buf);
+                        u64::from_le_bytes(a)
+                    })
+                }
+            };
+            let width_mask = match kind {
+                0 | 1 => 0xff,
+                2..=5 => 0xffff,
+                6..=9 | 14 | 15 => 0xffff_ffff,
+                10..=13 | 16 | 17 => u64::MAX,
+                k => (1u64 << (8 * (k as u64 - 17))) - 1,
+            };
+            if got != Some(v & width_mask) {
+                ok = false;
+                ctx.violation("invariant | codec read does not return the value written", format!("round {} kind {}: {:?} vs {:#x}", round, kind, got, v & width_mask));
+                break;
+            }
+        }
+        if ok {
+            ctx.check(rd.remaining() == 0, "invariant | codec remaining() != 0 after reading everything", || format!("round {}", round));
+            // past the end: errors, never panics, whatever the distance
+            let past = rd.read_u8().is_err() && rd.read_u64_be().is_err() && rd.read_f32_le().is_err();
+            ctx.check(past, "invariant | codec read past the end succeeded", || format!("round {}", round));
+            let mut rd2 = SketchSlice::new(&bytes);
+            rd2.advance(*rng.pick(&[0u64, 1, bytes.len() as u64, bytes.len() as u64 + 1, u32::MAX as u64, u64::MAX / 2, u64::MAX]));
+            rd2.advance(*rng.pick(&[0u64, 7, u64::MAX]));
+            let _ = rd2.remaining();
+            let _ = rd2.read_u16_le();
+        }
+    }
+    ctx.cover("extreme_codec");
+}
+
+/// Constructors and static helpers with a fallible or table-driven result.
+fn extremes_statics(ctx: &mut Ctx, rng: &mut Rng) {
+    for k in [0u16, 1, 9, 10, 11, 100, 32767, 32768, 65535] {
+        match TDigestMut::try_new(k) {
+            Ok(mut d) => {
+                ctx.check(k >= 10, "invariant | TDigestMut::try_new accepted k below 10", || format!("k {}", k));
+                d.update(1.0);
+                let _ = d.quantile(0.5);
+            }
+            Err(_) => {
+                ctx.check(k < 10, "invariant | TDigestMut::try_new rejected a documented k", || format!("k {}", k));
+            }
+        }
+        ctx.evals(1);
+    }
+    for lg in 0u8..=30 {
+        let e = FrequentItemsSketch::<i64>::epsilon_for_lg(lg);
+        let a = FrequentItemsSketch::<i64>::apriori_error(lg, *rng.pick(&[0i64, 1, 1 << 40, i64::MAX]));
+        ctx.check(e.is_finite() && e > 0.0 && a.is_finite() && a >= 0.0, "invariant | frequent items epsilon / a-priori error not finite", || format!("lg {}", lg));
+        ctx.evals(1);
+    }
+    for (n, bits) in [(1u64, 1u64), (1, 64), (1000, 8), (1_000_000, 1 << 30), (u32::MAX as u64, 1 << 20), (1, u32::MAX as u64)] {
+        let h = BloomFilterBuilder::suggest_num_hashes_from_accuracy(n, bits);
+        ctx.check(h >= 1, "invariant | suggested number of Bloom hashes is 0", || format!("n {} bits {}", n, bits));
+        ctx.evals(1);
+    }
+    ctx.cover("extreme_statics");
+}
+
 fn extremes_case(ctx: &mut Ctx, case: &Json) {
     let mut rng = Rng::new(case.u64("seed").unwrap_or(0));
     let what = case.str("what").unwrap_or("");
@@ -468,6 +621,8 @@ fn extremes_case(ctx: &mut Ctx, case: &Json) {
             ctx.cover("extreme_countmin");
         }
         "bloom" => extremes_bloom(ctx, &mut rng),
+        "codec" => extremes_codec(ctx, &mut rng),
+        "statics" => extremes_statics(ctx, &mut rng),
         "sweep-hll" => sweep_hll(ctx, &mut rng, big),
         "sweep-cpc" => sweep_cpc(ctx, &mut rng, big),
         "sweep-theta" => sweep_theta(ctx, &mut rng, big),
@@ -479,7 +634,7 @@ fn extremes_case(ctx: &mut Ctx, case: &Json) {
     ctx.end_case(fp.get(), true);
 }
 
-pub const EXTREMES: [&str; 10] = ["hll", "cpc", "theta", "tdigest", "frequent", "countmin", "bloom", "sweep-hll", "sweep-cpc", "sweep-theta"];
+pub const EXTREMES: [&str; 12] = ["hll", "cpc", "theta", "tdigest", "frequent", "countmin", "bloom", "sweep-hll", "sweep-cpc", "sweep-theta", "codec", "statics"];
 
 /// C17 asks one thing of the borrowed monitors: that nothing panics. Their other clauses belong to their own
 /// properties (and are judged there, with their own known findings); only panic violations are kept here.
@@ -553,7 +708,8 @@ pub fn run(ctx: &mut Ctx) {
              2^40, Count-Min 1x3 in all 8 types with totals at the type's maximum, Bloom 1 bit) or a 'sweep' program (every \
              lg_k of the documented range of HLL 4..21, CPC 4..26 and theta 5..26 at several fill levels: all queries at \
              all three standard deviations on streamed, deserialized and united sketches, wrappers and compact forms, \
-             trim at exactly k retained entries), executed in the dbg \
+             trim at exactly k retained entries), the public codec helpers (typed writes read back in both byte orders, reads \
+             and advance past the end) and the fallible / static constructors, executed in the dbg \
              (debug-assertions + overflow-checks) and the rel profile; any panic is a violation, and the monitors' own \
              invariants stay armed. distinct = fingerprint per program; non-trivial = the program performed updates"
                 .into(),
